@@ -338,6 +338,12 @@ func RunSim(t *testing.T, o RunOpts, driver func(w *World)) (out Outcome) {
 			out.SitePairs = sim.SitePairs
 			out.Aborted = sim.Aborted()
 			out.Panic = w.DriverPanic
+			if len(sim.SutPanics) > 0 {
+				out.Panic = sim.SutPanics[0]
+				if out.Aborted == "sut-panic" {
+					out.Aborted = ""
+				}
+			}
 			for _, d := range sim.Trace {
 				if d.C != 0 {
 					out.Choices++
